@@ -65,6 +65,37 @@ func (r *Run) parseUintSym(s []*smt.Term, base int, maxVal uint64) (val *smt.Ter
 	if len(s) == 0 {
 		return smt.Const(64, 0), pSyntax, true
 	}
+	if base == 0 {
+		// prefix detection as in the real code; underscores (legal only with base 0) go to the real code
+		us := smt.False
+		for _, c := range s {
+			us = B.Or(us, B.Eq(c, smt.Const(8, '_')))
+		}
+		if r.branch(us) {
+			return nil, 0, false
+		}
+		base = 10
+		if r.branch(B.Eq(s[0], smt.Const(8, '0'))) {
+			base = 8
+			rest := s[1:]
+			if len(s) >= 3 {
+				l := B.BOr(s[1], smt.Const(8, 0x20))
+				isB, isO, isX := B.Eq(l, smt.Const(8, 'b')), B.Eq(l, smt.Const(8, 'o')), B.Eq(l, smt.Const(8, 'x'))
+				switch r.decide(dkOther, []*smt.Term{B.AndN(B.Not(isB), B.Not(isO), B.Not(isX)), isB, isO, isX}) {
+				case 1:
+					base, rest = 2, s[2:]
+				case 2:
+					base, rest = 8, s[2:]
+				case 3:
+					base, rest = 16, s[2:]
+				}
+			}
+			if len(rest) == 0 {
+				return smt.Const(64, 0), pOK, true // "0"
+			}
+			s = rest
+		}
+	}
 	if base < 2 || base > 36 || len(s) > maxDigitsNoOverflow(base) {
 		return nil, 0, false
 	}
@@ -123,7 +154,7 @@ func (r *Run) parseArgs(args []Value) (s Str, base, bitSize int, ok bool) {
 	if bitSize == 0 {
 		bitSize = 64
 	}
-	if bitSize < 0 || bitSize > 64 || base == 0 {
+	if bitSize < 0 || bitSize > 64 {
 		return s, base, bitSize, false
 	}
 	return s, base, bitSize, true
